@@ -12,7 +12,7 @@ def make_tree(rnd, lb, mode, ultra):
     n = rnd.randint(2, 8)
     for i in range(n):
         kind = rnd.choice(['text', 'random', 'empty', 'multiblock', 'tiny', 'skip-suffix', 'skip-missing', 'skip-dir', 'skip-hardlink',
-                           'skip-exists', 'corrupt', 'notbz2'] if mode == 'decompress' else
+                           'skip-exists', 'corrupt', 'notbz2', 'trailing-garbage', 'trailing-garbage-big', 'notbz2-big'] if mode == 'decompress' else
                           ['text', 'random', 'empty', 'multiblock', 'tiny', 'runs', 'skip-suffix', 'skip-missing', 'skip-dir', 'skip-hardlink',
                            'skip-exists'])
         if mode == 'decompress' and kind == 'skip-suffix':
@@ -32,6 +32,13 @@ def make_tree(rnd, lb, mode, ultra):
                 b = bytearray(content); b[len(b) // 2] ^= 0x04; content = bytes(b)
             if kind == 'notbz2':
                 content = b'this is not bzip2 data\n' * 10
+            if kind == 'notbz2-big':
+                content = b'plain, ' + rnd.randbytes(rnd.choice([270000, 600000]))
+            if kind == 'trailing-garbage':
+                content += b'\0' * rnd.choice([1, 7]) + rnd.randbytes(rnd.choice([1, 100, 5000]))
+            if kind == 'trailing-garbage-big':
+                # the decoder is done with the operand while the reader still has input blocks to go
+                content += b'\xff' + rnd.randbytes(rnd.choice([200000, 300000, 460000, 800000]))
         p = os.path.join(d, name)
         if kind == 'skip-missing':
             pass
@@ -54,7 +61,7 @@ def make_tree(rnd, lb, mode, ultra):
 
 def run(ctx):
     ctx.rule = ('random sequences of 2-8 FILE operands (compressible, incompressible, empty, multi-block, tiny, each skip kind; for decompression '
-                'also corrupt and non-bzip2 operands) in both modes incl. -u, with -k/-c/-f variants and 1-4 workers: the same scratch tree is '
+                'also corrupt, non-bzip2 and trailing-garbage operands, small and spanning several input blocks) in both modes incl. -u, with -k/-c/-f variants and 1-4 workers: the same scratch tree is '
                 'processed once in ONE invocation and once operand by operand; trees (names, contents, modes, mtimes) and, for -c, the '
                 'concatenated stdout must be identical; status: 1 if a fatal operand was reached (earlier operands complete, later untouched), '
                 'else 4 if any operand alone gives 4, else 0; non-trivial = distinct operand sequence x flags')
